@@ -123,7 +123,7 @@ def run_forever_paths(ctx, reconnect=0, prior_errored=False, scenario_filter=Non
     def disp_read(I, run, args, kwargs, node):
         run.effect("dispatcher.read", (), node=node)
         read_cb, check_cb = args[-2], args[-1]
-        ch = run.choose(4, I.locof(node), "loop: one frame then stops / check raises timeout / KeyboardInterrupt / app.close() from a callback")
+        ch = run.choose(5, I.locof(node), "loop: frames until read() is falsy / check raises timeout / KeyboardInterrupt / app.close() from a callback / app.close() from another thread while waiting")
         if ch == 0:
             # the real loop keeps reading while read() is truthy and keep_running holds: up to two frames here
             from ..absint import CutoffSig
@@ -138,6 +138,8 @@ def run_forever_paths(ctx, reconnect=0, prior_errored=False, scenario_filter=Non
             raise_exc(I, run, "builtins.KeyboardInterrupt", node)
         app = next(a for a, c in run.heap.items() if getattr(c, "label", "") == "app")
         I.call(run, I.getattr(run, Ref(app), "close", None), [], {}, node)
+        if ch == 4:
+            return NONE  # the loop condition sees keep_running False: read() is not called again
         I.call(run, read_cb, [], {}, node)
         return NONE
 
@@ -288,8 +290,8 @@ def r5(ctx):
         sc = _scenario(o)
         errs = [e for e in o.effects if e.name == "on_error"]
         clean = sc.get("connect") == 0 and ((sc.get("loop") == 0 and sc.get("frame") == 1) or (sc.get("loop") == 3 and sc.get("frame") is None))
-        if sc.get("loop") == 3:
-            clean = sc.get("connect") == 0  # app.close(): read() sees keep_running False and tears down
+        if sc.get("loop") in (3, 4):
+            clean = sc.get("connect") == 0  # app.close(): read() / the finally arm tears down
         if clean and o.kind == "return":
             key = "server-close-frame" if sc.get("loop") == 0 else "application-close"
             ok = o.value == FALSE and not errs
@@ -312,7 +314,7 @@ def r5(ctx):
     n = 0
     for o in outs2:
         sc = _scenario(o)
-        if o.kind == "return" and sc.get("connect") == 0 and sc.get("loop") == 3:
+        if o.kind == "return" and sc.get("connect") == 0 and sc.get("loop") in (3, 4):
             n += 1
             if o.value != FALSE:
                 bad = bad or o
